@@ -59,6 +59,15 @@ def asts(tier):
                 out.append(["bin", op, x, y])
     for x in L:
         out.append(["un", "neg", x])
+    # negative literals (written in parentheses) as operands, in particular as the base of a power
+    for lit in (-3.0, -0.5, -2.0):
+        for op in ARITH:
+            for y in (A, ["num", 2.0], ["num", 3.0], ["num", 4.0]):
+                out.append(["bin", op, ["num", lit], y])
+                out.append(["bin", op, y, ["num", lit]])
+                out.append(["bin", "+", B, ["bin", op, ["num", lit], y]])
+                out.append(["bin", "-", ["bin", op, ["num", lit], y], C])
+        out.append(["un", "neg", ["num", lit]])
     # depth 2 arithmetic: complete (outer op, position, inner op) table, both-compound included
     inner_l = [["bin", op, A, B] for op in ARITH] + [["un", "neg", A]]
     inner_r = [["bin", op, B, C] for op in ARITH] + [["un", "neg", C]]
